@@ -179,7 +179,7 @@ class C20(Check):
     require = {"ops_compared": 2000, "seek_programs": 1000, "range_requests_checked": 500, "retry_cases": 150}
 
     def gen_cases(self, tier: str, seed: int):
-        n = 160 if tier == "quick" else 3000
+        n = 160 if tier == "quick" else 15000
         for i in range(n):
             yield {"part": "diff", "i": i, "seed": seed, "prefix": PREFIXES[i % len(PREFIXES)]}
         # every ordered triple of single-key operations after an initial write (state kept by the backend OBJECT between
